@@ -74,12 +74,16 @@ func oracle(in *ctl.Inst, r *vs.Result) []string {
 				relisted = true
 			}
 		}
-		if relisted && o.HistDone {
+		if relisted && o.HistDoneAtRead {
 			in.Converged = 1
 			if o.CacheAtRead != want {
 				msgs = append(msgs, fmt.Sprintf("cache did not converge to the server | %s: a list taken after the last server change has been applied (list snapshots at versions %v, server at %d) but the cache holds %s, the server's accepted objects are %s (watches at %v)", desc, o.ListRVs, o.ServerRV, o.CacheAtRead, want, o.WatchRVs))
 			}
 		}
+	}
+	// never regressing: with a healthy watch and a quiet server the cache cannot hold an older version than the server
+	if !o.DoneAtRead && o.HistDoneAtRead && len(in.C.WatchFaults) == 0 && in.C.DefaultWatch.Kind == "" && o.CacheAtRead != want {
+		msgs = append(msgs, fmt.Sprintf("cache regressed or lost watch events | %s: the watch is healthy and the server is quiet, yet the cache holds %s while the server's accepted objects are %s (list snapshots at %v, server at %d)", desc, o.CacheAtRead, want, o.ListRVs, o.ServerRV))
 	}
 	if !o.Finished {
 		msgs = append(msgs, fmt.Sprintf("Close hangs | %s: Close() did not return / Done() did not close (closes returned %d of %d); blocked: %v", desc, o.CloseReturned, o.ClosesIssued, ctl.BlockedNames(r)))
@@ -176,6 +180,11 @@ func Property() runner.Property {
 				mk("watch-status@1/h3", ctl.Cfg{Pre: pre, Hist: h[:3], WatchFaults: map[int]fakeapi.WatchFault{1: W("status", 1)}}),
 				mk("slow-first-list/h3", ctl.Cfg{Pre: pre, Hist: h[:3], ListFaults: map[int]fakeapi.ListFault{1: {Latency: 2 * time.Second}}}),
 				mk("list-slower-than-period/late", ctl.Cfg{Pre: pre, Hist: late, ListFaults: map[int]fakeapi.ListFault{2: {Latency: 4 * time.Second}}, ReadAt: 14 * time.Second}),
+				// a slow relist whose snapshot predates watch events that were applied meanwhile: nothing may regress
+				mk("stale-relist/late-update", ctl.Cfg{Pre: pre, Hist: []ctl.Mut{{Op: "set", Name: "a", Labels: "l=1", Delay: 3500 * time.Millisecond}, {Op: "set", Name: "b", Labels: "l=1"}}, ListFaults: map[int]fakeapi.ListFault{2: {Latency: time.Second, Stale: true}}, ReadAt: 5 * time.Second}),
+				// delete + re-create around a relist, the re-create frame lost by the stream: a stale delete still in the
+				// watcher's buffer must not undo what the list installed
+				mk("recreate-around-relist/close@1", ctl.Cfg{Pre: pre, Hist: []ctl.Mut{{Op: "del", Name: "a", Delay: 3 * time.Second}, {Op: "set", Name: "a", Labels: "l=1"}}, WatchFaults: map[int]fakeapi.WatchFault{1: W("close", 1)}, ReadAt: 5 * time.Second}),
 				mk("watch-blocks-forever/late", ctl.Cfg{Pre: pre, Hist: late, DefaultWatch: W("block", 0)}),
 			}
 			if tier == "thorough" {
@@ -188,5 +197,71 @@ func Property() runner.Property {
 			}
 			return out
 		},
+	}
+}
+
+// C05Controller: the whole-controller half of C05 - through the real controller (cache updated before the
+// events are distributed; lists racing with watch events) a subscriber and a subscriber of a clone see every
+// event once, in order, never an older version after a newer one, and Cache().Get after an event is never older.
+func C05Controller(tier string) []runner.Sc {
+	d := 2
+	if tier == "thorough" {
+		d = 3
+	}
+	tree := []hx.Spec{{Kind: "sub"}, {Kind: "clone", Children: []hx.Spec{{Kind: "sub"}}}}
+	pre := []ctl.Mut{{Op: "set", Name: "a", Labels: "l=1"}}
+	orc := func(in *ctl.Inst, r *vs.Result) []string {
+		var msgs []string
+		o := in.O
+		if o.CreateErr != nil || !o.ObserverRan {
+			return []string{"harness | controller scenario did not run: " + in.Desc()}
+		}
+		var streams []string
+		hx.Walk(in.Nodes, func(n *hx.Node) {
+			if !n.IsLeaf() {
+				return
+			}
+			if len(n.GetOlder) > 0 {
+				msgs = append(msgs, fmt.Sprintf("cache older than event | %s: leaf %s: %v", in.Desc(), n.Path, n.GetOlder))
+			}
+			ver := map[string]int{}
+			for _, e := range n.Received {
+				i := strings.Index(e, ":")
+				typ, obj := e[:i], e[i+1:]
+				key := obj[:strings.Index(obj, "@")]
+				var v int
+				fmt.Sscanf(obj[strings.Index(obj, "@")+1:], "%d", &v)
+				if typ == "delete" {
+					delete(ver, key)
+					continue
+				}
+				if pv, ok := ver[key]; ok && v <= pv {
+					msgs = append(msgs, fmt.Sprintf("subscriber saw a duplicate or older version | %s: leaf %s events %v", in.Desc(), n.Path, n.Received))
+					break
+				}
+				ver[key] = v
+			}
+			streams = append(streams, strings.Join(n.Received, " "))
+		})
+		// all subscribers that existed from the start agree on the sequence
+		for _, s := range streams[1:] {
+			if s != streams[0] {
+				msgs = append(msgs, fmt.Sprintf("subscribers disagree on the event sequence | %s: %v", in.Desc(), streams))
+				break
+			}
+		}
+		return msgs
+	}
+	mk := func(name string, c ctl.Cfg) runner.Sc {
+		c.Name, c.Period, c.Tree, c.Pre, c.Mode, c.Bound = "controller/"+name, P, tree, pre, "S2", d
+		if c.ReadAt == 0 {
+			c.ReadAt = 5 * time.Second
+		}
+		return ctl.Scenario("C05", c, orc)
+	}
+	h := []ctl.Mut{{Op: "set", Name: "a", Labels: "l=1"}, {Op: "set", Name: "b", Labels: "l=0"}, {Op: "del", Name: "b"}}
+	return []runner.Sc{
+		mk("watch-events", ctl.Cfg{Hist: h}),
+		mk("stale-relist", ctl.Cfg{Hist: []ctl.Mut{{Op: "set", Name: "a", Labels: "l=1", Delay: 3500 * time.Millisecond}, {Op: "set", Name: "b", Labels: "l=1"}}, ListFaults: map[int]fakeapi.ListFault{2: {Latency: time.Second, Stale: true}}}),
 	}
 }
